@@ -504,7 +504,31 @@ def r_errors_reach_the_caller(cx):
         o.rule = "R5"
 
 
+def r6_checked_reads_come_from_the_file(cx):
+    """'if any byte covered by a pack's checksum is later altered the check reports failure': `check()` streams the
+    checked range of a file-backed pack through FileSource (never the in-memory copy), and FileSource keeps one
+    BufReader for its whole life. Every read of it is positioned with an absolute `seek(SeekFrom::Start(..))`, which
+    empties the read buffer; `seek_relative` (or no seek at all) would serve the bytes buffered by an earlier read, so a
+    second check of an object that is already open would not see an alteration made in between."""
+    F = cx.F
+    import streams
+    n = 0
+    for item in ("read", "read_exact", "cut"):
+        f = F.one(impl_self="bases::io::file::FileSource", item=item, trait="Source", closure=False)
+        b = F.body(f)
+        reads = [i for i, t in b.calls(r"io::Read>::(read|read_exact|read_to_end|read_buf)$")]
+        if item != "cut" and not reads:
+            raise AnchorLost("FileSource::%s no longer reads the file" % item)
+        absolute = {i for i, t in b.calls(r"io::Seek>::seek$") if streams.seek_variant(b, t)[0] == "Start"}
+        relative = [t.get("ln") for i, t in b.calls(r"seek_relative$")]
+        unpositioned = [b.ln(r) for r in reads if not b.set_dominates(absolute, r)]
+        n += 1
+        cx.ob("R6", "R6/FileSource.%s/positioned-with-an-absolute-seek" % item, not relative and not unpositioned, f,
+              "every read of the shared BufReader (%d) comes after seek(SeekFrom::Start(..)), which discards what an earlier read buffered (seek_relative at lines %s; reads without an absolute seek before them: %s)" % (len(reads), relative, unpositioned))
+
+
 RULES = [
+    ("R6", r6_checked_reads_come_from_the_file, 3),
     ("R5", r_errors_reach_the_caller, 2),
     ("R1", r1_hash_after_writes, 18),
     ("R2", r2_check_impl, 18),
